@@ -2,6 +2,7 @@ package main
 
 import (
 	"fmt"
+	"go/token"
 	"go/types"
 	"strings"
 
@@ -19,7 +20,19 @@ func (fr *Frame) call(c *ssa.CallCommon, ins ssa.Instruction, st *State, cond st
 		fr.safety("nil", cond, not(eq(recv.L[0], "0")), ins, "method call on nil interface: "+c.Value.Name()+"."+c.Method.Name())
 		args = append(args, recv)
 	}
-	for _, a := range c.Args {
+	var mp map[int]bool
+	if sc := c.StaticCallee(); sc != nil && len(sc.Blocks) > 0 && inRepo(sc) {
+		mp = mutableParams(sc)
+	}
+	for i, a := range c.Args {
+		if mp[i] {
+			v := fr.get(a)
+			if !v.Mut {
+				unsupported("immutable byte slice passed to %s, which writes through it", c.StaticCallee().Name())
+			}
+			args = append(args, v)
+			continue
+		}
 		args = append(args, fr.escape(fr.get(a), st))
 	}
 	if name := intrinsicName(c); name != "" {
@@ -165,8 +178,13 @@ func (fr *Frame) appendBuiltin(c *ssa.CallCommon, ins ssa.Instruction, st *State
 		fits := "(<= (+ " + la + " " + n + ") " + a.L[2] + ")"
 		// aliasing obligation: appending in place onto a slice read from shared state would write
 		// shared memory
-		if fr.sharedBase(c.Args[0]) {
-			fr.fx.obligeNamed(fr.key+"#append-alias", "append-alias", []string{"safety", "alias"}, cond, or(eq(n, "0"), eq(a.L[2], la)), fr.pos(ins.Pos()), "append onto a shared slice must reallocate (cap == len)")
+		// (any backing array that existed when the verified function was entered: fields, globals, arguments)
+		if fr.sharedBase(c.Args[0]) || !fr.get(c.Args[0]).Mut {
+			fresh := "false"
+			if !fr.sharedBase(c.Args[0]) {
+				fresh = "(priv " + a.L[1] + ")"
+			}
+			fr.fx.obligeNamed(fr.key+"#append-alias", "append-alias", []string{"safety", "alias"}, cond, or(eq(n, "0"), eq(a.L[2], la), fresh), fr.pos(ins.Pos()), "append onto a slice whose backing array is visible to the caller must reallocate (cap == len)")
 		}
 		ref := fr.bumpAlloc(st)
 		ncap := fx.fresh("cap", "Int")
@@ -274,6 +292,20 @@ func (fr *Frame) copyBuiltin(c *ssa.CallCommon, ins ssa.Instruction, st *State, 
 			ld := "(blen " + dst.L[0] + ")"
 			fx.note("untracked copy at " + fr.pos(ins.Pos()))
 			return Val{T: T, L: []string{fx.name(ite("(< "+ld+" "+ls+")", ld, ls), "Int", "ncopy")}}
+		}
+		// copy into a byte slice just loaded from a heap cell (generated decoders: copy(m.F[len(m.F)-1], src)):
+		// the cell is updated with the new contents; the backing array must be private to this execution
+		// (assumption A-copy: no second stored slice shares that array)
+		if u, ok := c.Args[0].(*ssa.UnOp); ok && u.Op == token.MUL {
+			if p := fr.get(u.X); p.Loc != nil && p.Loc.Root != "#bseq" && p.Loc.Root != "uint8" {
+				ld := "(blen " + dst.L[0] + ")"
+				n := fx.name(ite("(< "+ld+" "+ls+")", ld, ls), "Int", "ncopy")
+				fx.obligeNamed(fr.key+"#copy-alias", "append-alias", []string{"safety", "alias"}, cond, or(eq(n, "0"), "(priv "+dst.L[1]+")"), fr.pos(ins.Pos()), "copy into a stored byte slice requires a backing array that is private to this execution")
+				nseq := fx.name("(bcat (bsub "+src.L[0]+" 0 "+n+") (bsub "+dst.L[0]+" "+n+" (- "+ld+" "+n+")))", "BSeq", "copied")
+				fx.storeLoc(st, p.Loc, Val{T: dst.T, L: []string{nseq, dst.L[1], dst.L[2]}})
+				fx.used["A-copy: a stored byte slice written through copy() is not aliased by another stored slice"] = true
+				return Val{T: T, L: []string{n}}
+			}
 		}
 		unsupported("copy into an immutable byte sequence at %s", fr.pos(ins.Pos()))
 	}
@@ -493,7 +525,7 @@ func (fr *Frame) havocMod(m string, pt map[string]types.Type, vars map[string]Va
 		}
 		v := ev.eval(ex)
 		sl := v.T.Underlying().(*types.Slice)
-		for _, k := range fr.typeComps("E|", sl.Elem(), "", sl.Elem()) {
+		for _, k := range fr.elemComps(sl.Elem()) {
 			pointHavoc(k, v.L[0])
 		}
 		return
